@@ -21,6 +21,9 @@ def obligations(tier):
                       timeout=900, family="pwhash-limits", nochecks=True,
                       desc="crypto_pwhash_%s: every limit -> -1/errno before the core; in-range -> core(t=opslimit, m=memlimit/1024, p=1)" % nm,
                       bounds="all 64-bit passwdlen/opslimit/memlimit, outlen <= 2^33, any alg value"))
+        obs.append(Ob("str-api-" + nm, "C08/pwhash.c", units=[unit] + COMMON, stubs=STUBS, defs={"PART": 6, "ID": idv}, unwind=140, timeout=900, family="pwhash-str-api", nochecks=True,
+                      desc="crypto_pwhash_%s_str / _str_verify: limits, salt = 16 bytes from the installed source, parameters and buffers forwarded, result follows the core, nothing produced on failure" % nm,
+                      bounds="all 64-bit passwdlen/opslimit/memlimit, any core status, all source bytes"))
         obs.append(Ob("needs-rehash-" + nm, "C08/pwhash.c", units=[A2 + "pwhash_argon2i.c", A2 + "argon2-encoding.c", A2 + "argon2-core.c"] + COMMON,
                       stubs=STUBS, defs={"PART": 1, "ID": idv}, unwind=70, timeout=900, mem=6, family="needs-rehash",
                       desc="str_needs_rehash == 0/1/-1 per statement", bounds="all 64-bit (opslimit, memlimit); skeleton string m=8,t=3 with any one structural character replaced by any non-digit"))
